@@ -546,6 +546,48 @@ func (h *harness) genCase(r *rng, name, stream string, nops int) *Case {
 		c.Ops = append(c.Ops, o, Op{Kind: "dump"}, Op{Kind: "items"})
 		return c
 	}
+	if stream == "ploss" && (h.prop == "C06" || h.prop == "C09") && r.chance(20) {
+		// "... or an earlier recovery": a failure that tears the last record (also inside its 6-byte
+		// header), recovery, then writes that ARE synced, then more power failures (after every op)
+		h.stat("gen.plossafterrecovery")
+		c.Cfg.MaxSeg = []uint32{1024, 2048, 4096}[r.intn(3)]
+		c.Cfg.MinSeg = 1
+		c.Cfg.FragStr, c.Cfg.Frag = "0.3", 0.3
+		c.Cfg.SyncMode = r.chance(40)
+		c.Pool = keyPool(r, c.Cfg.HashSeed, 10, 0)
+		put := func() {
+			k := c.Pool[r.intn(len(c.Pool))]
+			c.Ops = append(c.Ops, Op{Kind: "put", K: k, V: patternBytes(5+r.intn(120), byte(r.next()))})
+		}
+		for i, n := 0, 3+r.intn(8); i < n; i++ {
+			put()
+		}
+		c.Ops = append(c.Ops, Op{Kind: "sync"})
+		for round, nr := 0, 1+r.intn(2); round < nr; round++ {
+			kind := "crashtornhdr"
+			if r.chance(35) {
+				kind = "crashtorn"
+			}
+			c.Ops = append(c.Ops, Op{Kind: kind, K: c.Pool[r.intn(len(c.Pool))], V: patternBytes(200+r.intn(400), 'T')})
+			for i, n := 0, 1+r.intn(5); i < n; i++ {
+				put()
+				if r.chance(25) {
+					c.Ops = append(c.Ops, Op{Kind: "del", K: c.Pool[r.intn(len(c.Pool))]})
+				}
+			}
+			c.Ops = append(c.Ops, Op{Kind: "sync"})
+			for i, n := 0, r.intn(4); i < n; i++ {
+				put()
+			}
+			if r.chance(30) {
+				c.Ops = append(c.Ops, Op{Kind: "compact"})
+			}
+			if r.chance(30) {
+				c.Ops = append(c.Ops, Op{Kind: "reopen"})
+			}
+		}
+		return c
+	}
 	if h.prop == "C02" && r.chance(50) {
 		// one long chain whose bucket is split (overflow buckets freed), then many short sessions that
 		// delete a key elsewhere and add one key to the chain: the key count stays the same while
@@ -884,6 +926,16 @@ func (s *session) checkpoint(withDump bool) {
 	}
 	s.h.emit("segs %s", segsLine(s.db, s.readSeg))
 	segsDurable = nil
+	if s.h.prop == "C15" || s.h.prop == "C05" {
+		// garbage statistics that drive the choice of segments to compact (id:DeletedBytes:DeletedKeys)
+		var parts []string
+		for _, sg := range s.db.VerifSegments() {
+			parts = append(parts, fmt.Sprintf("%d:%d:%d", sg.ID, sg.DeletedBytes, sg.DeletedKeys))
+		}
+		if len(parts) > 0 {
+			s.h.emit("segmeta %s", strings.Join(parts, " "))
+		}
+	}
 	s.h.emit("dir %s handles=%d", dirLine(s.sim.Snapshot()), s.sim.OpenHandles())
 	if withDump {
 		s.h.emit("%s", dumpLine(s.db))
